@@ -2,7 +2,7 @@
 (* trait/seq (and, through the extension tables, trait/pair): iterator combinators.
 
    An *expression* is a nested record
-       [op "nil"] | [op "slice", xs] | [op "from", x]
+       [op "nil"] | [op "slice", xs] | [op "from", x]            (PairIter adds [op "pfrom", kv])
      | [op "tw"|"dw"|"flt", p, e] | [op "map", m, e] | [op "plus", l, r] | [op "join"|"toseq"|"fromseq", j, e]
    where p / m / j are *names* in fixed function tables (the Go harness holds the same tables).  A flat-map
    function maps an item to an expression (the iterator it returns is Construct of that expression; "nil" and the
@@ -64,6 +64,7 @@ FlatL(j, s) == IF s = <<>> THEN <<>> ELSE Sem(AppJ(j, Head(s))) \o FlatL(j, Tail
 Sem(e) == CASE e.op = "nil" -> <<>>
             [] e.op = "slice" -> e.xs
             [] e.op = "from" -> <<e.x>>
+            [] e.op = "pfrom" -> <<e.kv>>
             [] e.op = "tw" -> TakeWhileL(e.p, Sem(e.e))
             [] e.op = "dw" -> DropWhileL(e.p, Sem(e.e))
             [] e.op = "flt" -> FilterL(e.p, Sem(e.e))
@@ -146,6 +147,7 @@ Construct(e) ==
   CASE e.op = "nil" -> <<Nil, <<>>>>
     [] e.op = "slice" -> <<IF Len(e.xs) = 0 THEN Nil ELSE [t |-> "slice", el |-> e.xs, src |-> e.xs], <<>>>>
     [] e.op = "from" -> <<[t |-> "elem", v |-> e.x], <<>>>>
+    [] e.op = "pfrom" -> <<[t |-> "elem", v |-> e.kv], <<>>>>      \* pair.From(k, v): the item is <<k, v>>
     [] e.op = "tw" ->
          LET k == Construct(e.e) IN
          IF k[1] = Nil THEN k
@@ -213,7 +215,16 @@ SeqD1(S) == SeqD0(S) \cup SeqU(SeqD0(S)) \cup Binary(SeqD0(S), SeqD0(S))
 SeqD2(S) == SeqD0(S) \cup SeqU(SeqD1(S)) \cup Binary(SeqD1(S), SeqD1(S))
 \* depth 3, one side of a Plus being a leaf
 SeqD3(S) == SeqU(SeqD2(S)) \cup Binary(SeqD2(S), SeqD0(S)) \cup Binary(SeqD0(S), SeqD2(S))
-SeqSmall == SeqD2(SlicesS)
-SeqWide == SeqD2(SlicesW)
-SeqDeep == SeqD3(SlicesS)
+(* Universes are explored in two moves so that TLC's workers share the work: a tagged base expression <<"pick", e>> is
+   picked (Init), then wrapped once (an action) giving <<"seq", e'>>.  shape "d2": all expressions of depth <= 2; shape "d3": depth <= 3 where one side of
+   an outermost Plus is a leaf.  (Parameterless constant definitions are evaluated by TLC at start-up, hence the
+   selection by name.) *)
+SliceSet(w) == IF w = "wide" THEN SlicesW ELSE SlicesS
+Tag(t, E) == {<<t, e>> : e \in E}
+SeqBase(shape, w) == Tag("pick", CASE shape = "d1" -> SeqD0(SliceSet(w)) [] shape = "d2" -> SeqD1(SliceSet(w)) [] shape = "d3" -> SeqD2(SliceSet(w)))
+SeqWraps(tag, e, shape, w) ==
+  Tag("seq", {e} \cup SeqU({e})
+      \cup (CASE shape = "d1" -> Binary({e}, SeqD0(SliceSet(w)))
+             [] shape = "d2" -> Binary({e}, SeqD1(SliceSet(w)))
+             [] shape = "d3" -> Binary({e}, SeqD0(SliceSet(w))) \cup Binary(SeqD0(SliceSet(w)), {e})))
 ====
